@@ -244,6 +244,9 @@ def run(tier, seed):
     cell_hits = {}
     for leg in legs:
         jobs = [diff.job_for(forms, "p%d" % i) for i, (f, c, forms, fi) in enumerate(progs)]
+        for ji, j in enumerate(jobs):
+            if ji % 6 == 3:
+                diff.age(j, ctx.rng, ctx.rng.choice([50, 300]))       # a sixth of the programs on an interpreter that has already seen many failing forms
         recs = core.run_jobs(jobs, leg, timeout=600 if tier == "quick" else 3000, tag="c08")
         for (f, c, forms, fi), rec in zip(progs, recs):
             ctx.evaluations += 1
